@@ -142,6 +142,29 @@ func namedLayouts() []named {
 			return b
 		}}
 	}())
+	// group 4: fields that are not part of the message (no codec tag), one of them unexported, between tagged fields
+	out = append(out, func() named {
+		type record struct {
+			MsgType types.MsgType `uhppote:"value:0xb0"`
+			note    string
+			Serial  types.SerialNumber `uhppote:"offset:4"`
+			Comment string             `json:"comment"`
+			Index   uint32             `uhppote:"offset:8"`
+			seen    int
+			Granted bool  `uhppote:"offset:13"`
+			Door    uint8 `uhppote:"offset:14"`
+		}
+		return named{"record/untagged+unexported", func() (any, any) {
+			return &record{note: "n", Serial: 405419896, Comment: "c", Index: 70, seen: 3, Granted: true, Door: 4}, &record{note: "n", Comment: "c", seen: 3}
+		}, func() []byte {
+			b := make([]byte, 64)
+			b[0], b[1] = 0x17, 0xb0
+			le32(b, 4, 405419896)
+			le32(b, 8, 70)
+			b[13], b[14] = 1, 4
+			return b
+		}}
+	}())
 	return out
 }
 
@@ -174,7 +197,7 @@ func checkNamed(c namedCase) *rp.Fail {
 		}
 		fv, bv := reflect.ValueOf(filled).Elem(), reflect.ValueOf(blank).Elem()
 		for k := 0; k < fv.NumField(); k++ {
-			if n := fv.Type().Field(k).Name; n != "MsgType" && n != "Magic" && !reflect.DeepEqual(fv.Field(k).Interface(), bv.Field(k).Interface()) {
+			if n := fv.Type().Field(k).Name; n != "MsgType" && n != "Magic" && fv.Type().Field(k).IsExported() && !reflect.DeepEqual(fv.Field(k).Interface(), bv.Field(k).Interface()) {
 				return rp.Failf("codec.Unmarshal/wrong-value/declared-type", "step %d of %v: declared layout %s: field %s decoded as %v, want %v", step, c.Order, l.Label, n, bv.Field(k).Interface(), fv.Field(k).Interface())
 			}
 		}
@@ -189,7 +212,7 @@ func checkNamed(c namedCase) *rp.Fail {
 }
 
 func genNamed(t *rapid.T) namedCase {
-	return namedCase{Order: rapid.SliceOfN(rapid.IntRange(0, 6), 2, 14).Draw(t, "order")}
+	return namedCase{Order: rapid.SliceOfN(rapid.IntRange(0, 7), 2, 14).Draw(t, "order")}
 }
 
 // concurrent first use of a layout: a freshly built struct type (new to every per-type cache) is encoded and decoded by
